@@ -31,7 +31,8 @@ def hostile_datagrams(h, victim, rng):
     out = []
     for n in (0, 1, 8, 27):
         out.append(('short:%d' % n, rng.randbytes(n), peer_addr))
-    for name, d in list(G.handcrafted())[:40]:
+    hc = list(G.handcrafted())
+    for name, d in hc[:40] + [x for x in hc if x[0].startswith('attr-tlv') and ' len=0 ' in x[0]][:8] + rng.sample(hc[40:], 12):
         out.append(('hand:' + name.split(' ')[0], d, peer_addr))
     for _ in range(6):
         out.append(('random', rng.randbytes(rng.randrange(28, 300)), peer_addr))
